@@ -1,0 +1,76 @@
+//go:build verif
+
+// Verification hooks (add-only, compiled only with -tags verif). They expose
+// the unexported Mach-O header scanner and the signature space patcher to the
+// out-of-tree correspondence harness in /verif (format unit fmtmacho); no
+// existing behaviour is changed.
+package machos
+
+import (
+	"encoding/binary"
+	"io"
+)
+
+// VerifMarkers mirrors the unexported fields of machoMarkers.
+type VerifMarkers struct {
+	Magic          uint32
+	LittleEndian   bool
+	Ncmd, Cmdsz    uint32
+	SigStart       int64
+	SigLen         int64
+	LoadCsStart    int64
+	LinkEditHdrPos int64
+	LinkEditAddr   uint64
+	LinkEditMemsz  uint64
+	LinkEditOffset uint64
+	LinkEditFilesz uint64
+	NextLc         int64
+	FirstSh        int64
+	CodeSize       int64
+
+	m *machoMarkers
+}
+
+func exportMarkers(f *machoMarkers) *VerifMarkers {
+	return &VerifMarkers{
+		Magic:          f.Magic,
+		LittleEndian:   f.ByteOrder == binary.ByteOrder(binary.LittleEndian),
+		Ncmd:           f.Ncmd,
+		Cmdsz:          f.Cmdsz,
+		SigStart:       f.sigStart,
+		SigLen:         f.sigLen,
+		LoadCsStart:    f.loadCsStart,
+		LinkEditHdrPos: f.linkEditHdrPos,
+		LinkEditAddr:   f.linkEditHdr.Addr,
+		LinkEditMemsz:  f.linkEditHdr.Memsz,
+		LinkEditOffset: f.linkEditHdr.Offset,
+		LinkEditFilesz: f.linkEditHdr.Filesz,
+		NextLc:         f.nextLc,
+		FirstSh:        f.firstSh,
+		CodeSize:       f.codeSize,
+		m:              f,
+	}
+}
+
+// VerifScanFile calls scanFile.
+func VerifScanFile(r io.Reader) (*VerifMarkers, error) {
+	f, err := scanFile(r)
+	if err != nil {
+		return nil, err
+	}
+	return exportMarkers(f), nil
+}
+
+// VerifPatchSignature calls PatchSignature on the markers returned by
+// VerifScanFile and returns the new header, the length of the signature
+// buffer, the signature offset, the marshalled patch set and the padding.
+func (v *VerifMarkers) VerifPatchSignature(oldHeader []byte, sigSize int64) (newHeader []byte, sigBufLen int, sigStart int64, patch []byte, padding int64, err error) {
+	nh, sigBuf, start, ps, pad, err := v.m.PatchSignature(oldHeader, sigSize)
+	if err != nil {
+		return nil, 0, 0, nil, 0, err
+	}
+	return nh, len(sigBuf), start, ps.Dump(), pad, nil
+}
+
+// VerifAlign calls align.
+func VerifAlign(addr, a int64) int64 { return align(addr, a) }
